@@ -13,7 +13,7 @@
    Model/Resolver.v (c08_history_independent_resolver). *)
 From Apko Require Import Base.Prelude Model.Caches Spec.CachesSpec Proofs.CachesProofs
   Model.CachesBridge Proofs.CachesBridgeProofs.
-From Apko Require Model.Version Model.Resolver Generated.C08Caches.
+From Apko Require Model.Version Model.Resolver Generated.C08Caches Proofs.ResolveProofs Proofs.ResolveProofs2 Proofs.ResolveInstallIf.
 Open Scope string_scope. Open Scope list_scope.
 
 (* THE SOURCE HAS THE SHAPE THE MODEL TRANSCRIBES (regenerated from /repo on every
@@ -100,14 +100,14 @@ Print Assumptions c08_frame_hypothesis_not_vacuous.
    what Resolver.resolve_with returns for the resolver of the call's own
    indexes, an empty selected and the disqualification set of the call's own
    grouping - whatever the resolution leaves behind in its selected / dq maps
-   ([fsel], [fdq]) and whatever order the install_if loops take ([scheds]). *)
-Theorem c08_history_independent_resolver : forall u scheds fsel fdq hist c,
+   ([fsel], [fdq]). *)
+Theorem c08_history_independent_resolver : forall u fsel fdq hist c,
   GroupingCompatible (dq_difference u) (dq_key u) hist c ->
-  result_after (mk_names_of u) (mk_iif_of u) (dq_difference u) (dq_key u) _ (resolver_core u scheds fsel fdq) true hist c =
+  result_after (mk_names_of u) (mk_iif_of u) (dq_difference u) (dq_key u) _ (resolver_core u fsel fdq) true hist c =
   lift_res u (cl_indexes c)
     (Resolver.resolve_with
        (resolver_of_view u (fresh_view (mk_names_of u) (mk_iif_of u) (dq_difference u) c (cl_archs c)))
-       (cl_world c) (flat_pids u (cl_indexes c) (dq_difference u (cl_archs c))) scheds).
+       (cl_world c) (flat_pids u (cl_indexes c) (dq_difference u (cl_archs c)))).
 Proof. exact resolver_history_independent. Qed.
 Print Assumptions c08_history_independent_resolver.
 
@@ -181,58 +181,64 @@ Theorem c08_dq_cache_key_refuted :
 Proof. exact dq_cache_key_refuted. Qed.
 Print Assumptions c08_dq_cache_key_refuted.
 
-(* [refuted] C08-F1. `for dep := range added`: two legal iteration orders of the
-   same map give two install orders. Replayed on the real code: corpus/finding/F1. *)
-Theorem c08_order_deterministic_refuted :
-  added_keys f1_universe "w" = Ok ["a"; "b"] /\
-  Resolver.legal_sched_b ["a"; "b"] ["a"; "b"] = true /\ Resolver.legal_sched_b ["a"; "b"] ["b"; "a"] = true /\
-  Resolver.resolve f1_universe ["w"] [] [["a"; "b"]] = Ok [1; 2; 3; 4; 0] /\
-  Resolver.resolve f1_universe ["w"] [] [["b"; "a"]] = Ok [1; 2; 4; 3; 0].
-Proof. exact order_deterministic_refuted. Qed.
-Print Assumptions c08_order_deterministic_refuted.
+(* ORDER AND MEMBERS ARE DETERMINED (full; was refuted until fix c03e0c0, findings
+   C08-F1 and C08-F3).  GetPackageWithDependencies' install_if loop used to
+   range over the Go map `added` while inserting into it: two runs of the same
+   resolution could install the install_if packages in different orders
+   (C08-F1) and a chained install_if package was installed or not depending on
+   whether the iteration reached the key inserted on the way (C08-F3).  The
+   loop now walks the dependency list by index, the entries it appends
+   included; the model transcribes that (Resolver.iif_loop) and takes nothing
+   but the universe, the world and the initial disqualification set: for every
+   U, world and dq0 there is ONE result - members and order.  The statement is
+   as plain as it looks because no iteration-order parameter is left in the
+   model; what makes it a statement about the code is the correspondence
+   (stages res / seq: every resolution is repeated in the same and in fresh
+   processes and each run must EQUAL this model). *)
+Theorem c08_order_deterministic : forall U world dq0 r1 r2,
+  Resolver.resolve U world dq0 = r1 -> Resolver.resolve U world dq0 = r2 -> r1 = r2.
+Proof. exact order_deterministic. Qed.
+Print Assumptions c08_order_deterministic.
 
-(* [refuted] C08-F3. The same loop inserts into the map it ranges over; whether
-   the new key is visited decides whether a chained install_if package is
-   installed at all. Replayed on the real code: corpus/finding/F3. *)
-Theorem c08_install_if_members_refuted :
-  added_keys f3_universe "w" = Ok ["a"] /\
-  Resolver.legal_sched_b ["a"] ["a"] = true /\ Resolver.legal_sched_b ["a"] ["a"; "b"] = true /\
-  Resolver.resolve f3_universe ["w"] [] [["a"]] = Ok [1; 3; 0] /\
-  Resolver.resolve f3_universe ["w"] [] [["a"; "b"]] = Ok [1; 3; 2; 0].
-Proof. exact install_if_members_refuted. Qed.
-Print Assumptions c08_install_if_members_refuted.
+(* the witnesses of the two former refutations have one answer each.
+   f1: w -> a, b; a-x install_if a; b-x install_if b  (was [a b a-x b-x w] or [a b b-x a-x w]);
+   f3: w -> a; b install_if a; c install_if b         (was [a b w] or [a b c w]) *)
+Example c08_order_deterministic_example :
+  (loop_start f1_universe "w" = Ok ([1; 2], ["a"; "b"]) /\
+   Resolver.resolve f1_universe ["w"] [] = Ok [1; 2; 3; 4; 0]) /\
+  (loop_start f3_universe "w" = Ok ([1], ["a"]) /\
+   Resolver.resolve f3_universe ["w"] [] = Ok [1; 3; 2; 0]).
+Proof. exact (conj f1_one_answer f3_one_answer). Qed.
 
-(* [partial] the result does not depend on the iteration orders at all when no
-   package of the universe has an install_if entry. MISSING for the full
-   c08_order_deterministic_partial of the design ("at most one install_if
-   package triggered per requested package"): a commutation argument for
-   iif_visit on keys that trigger nothing. *)
-Theorem c08_order_deterministic_partial : forall U world dq0 s1 s2,
-  Resolver.r_iif (Resolver.new_resolver U) = [] ->
-  Resolver.resolve U world dq0 s1 = Resolver.resolve U world dq0 s2.
-Proof. exact order_deterministic_without_install_if. Qed.
-Print Assumptions c08_order_deterministic_partial.
-
-(* [partial, one loop] WITH install_if packages: if at most one install_if event
-   can happen in a range loop (a visit either changes nothing or leads to one
-   absorbing state), every legal iteration order of that loop gives the same
-   dependency list. c08_single_trigger_satisfiable: w -> a, a-x install_if a.
-   MISSING for the design's statement about whole resolutions: threading this
-   per-loop condition through phase2 (one loop per requested package). *)
-Theorem c08_order_deterministic_partial_single_trigger : forall R deps added st1 s1 s2,
-  SingleTrigger R (deps, added) st1 ->
-  Resolver.legal_sched_b (List.map fst added) s1 = true ->
-  Resolver.legal_sched_b (List.map fst added) s2 = true ->
-  Resolver.iif_loop R s1 deps added = Resolver.iif_loop R s2 deps added.
-Proof. exact iif_loop_single_trigger. Qed.
-Print Assumptions c08_order_deterministic_partial_single_trigger.
-
-Theorem c08_single_trigger_satisfiable :
-  let R := Resolver.new_resolver st_universe in
-  (exists dq sel i, Resolver.get_pkg_core R (Resolver.cook_str "w") [] [] [] = Ok (dq, sel, i, [1], [("a", 1)])) /\
-  SingleTrigger R ([1], [("a", 1)]) ([1; 2], [("a", 1); ("a-x", 2)]).
-Proof. exact single_trigger_example. Qed.
-Print Assumptions c08_single_trigger_satisfiable.
+(* CHAIN COMPLETENESS (full; the positive form of what C08-F3 refuted for the
+   map-range loop).  One call of GetPackageWithDependencies, any universe,
+   request, disqualification set, selected / existing maps: in the dependency
+   list it returns, every install_if package of the universe ALL of whose
+   install_if entries are, literally, names of entries of that list has a
+   package of its name in the list - also when the trigger was itself appended
+   by the loop (a-x-y install_if a-x install_if a), whatever the order of the
+   packages in the index.  (For the map-range loop this held only for the
+   iteration orders that happened to reach the inserted key.)  Stated for
+   entries that are names of members: name=version keys are looked up only when
+   no package has the bare name as an entry, and entries with another operator
+   are never keys - both quirks are in the model and in the corpora. *)
+Theorem c08_install_if_chain_complete : forall U w dq sel ex dq' sel' i deps,
+  let R := Resolver.new_resolver U in
+  Resolver.get_pkg R w dq sel ex = Ok (dq', sel', i, deps) ->
+  forall q, ResolveProofs.valid R q -> Resolver.k_iifs (Resolver.getp R q) <> [] ->
+    (forall e, In e (Resolver.k_iifs (Resolver.getp R q)) ->
+       In (Resolver.s_raw e) (List.map (ResolveProofs2.nm R) deps)) ->
+    In (ResolveProofs2.nm R q) (List.map (ResolveProofs2.nm R) deps).
+Proof. exact ResolveInstallIf.get_pkg_iif_complete. Qed.
+Print Assumptions c08_install_if_chain_complete.
+(* c (listed BEFORE b in the index) install_if b, b install_if a, w -> a: the
+   dependency list of the request w is [a b c] *)
+Example c08_install_if_chain_complete_example :
+  let R := Resolver.new_resolver f3_universe in
+  (exists dq sel, Resolver.get_pkg R (Resolver.cook_str "w") [] [] [] = Ok (dq, sel, 0, [1; 3; 2])) /\
+  List.map Resolver.s_raw (Resolver.k_iifs (Resolver.getp R 2)) = ["b"] /\
+  List.map (ResolveProofs2.nm R) [1; 3; 2] = ["a"; "b"; "c"].
+Proof. split; [eexists _, _; vm_compute; reflexivity | split; vm_compute; reflexivity]. Qed.
 
 (* the boolean validator run on the implementation's observed outcomes decides
    exactly the readable statement *)
